@@ -37,7 +37,10 @@ META = {
     "rule": "histories over a project of 4 sources in nested directories (one bundle entry requiring a 3-module DAG, "
             "two modules outside the input), 3 foreign files in the output folder and 6 configurations (rules, rule "
             "filters, generator): every valid history up to length 3 over a reduced alphabet (quick) or 4 (thorough), "
-            "every valid history up to length 2 over the full alphabet, then seeded random histories up to length 12 "
+            "every valid history up to length 2 over the full alphabet, 182 break/repair/touch histories (each bundled file "
+            "- direct, transitive, data file, internal source - broken by a parse error, removal or a require cycle, "
+            "repaired to the original or to new content, and every file of the dependency graph touched while broken and "
+            "after the repair), then seeded random histories up to length 12 "
             "(quick) or 40 (thorough); a history is non-trivial when some process after the first one reprocesses or "
             "deletes something; distinct by event sequence; for the oracle stream the unit is a process point and "
             "non-trivial means all hypotheses of the theorem hold there",
@@ -206,6 +209,51 @@ def expected_tree(rec, step):
     return exp
 
 
+def touched_paths(ev):
+    """the path an event reports to the worker (directory removals are the separate class F4)"""
+    kind, _, rest = ev.partition(":")
+    if kind in ("E", "A", "S"):
+        return [rest.rsplit(":", 1)[0]]
+    if kind in ("X", "R"):
+        return [rest]
+    return []
+
+
+def attempts(rec):
+    """for every process step: source -> (step of its last attempt, files that attempt certainly
+    read and inlined according to the harness's knowledge of the templates)"""
+    last = {}
+    table = {}
+    prev = None
+    for k, step in enumerate(rec["steps"]):
+        if step["ev"] == "P" and step.get("state"):
+            pending = None if prev is None or not prev.get("state") else {
+                it["source"] for it in prev["state"]["items"] if it["status"] == "not_started"}
+            for it in step["state"]["items"]:
+                if it["status"] in ("ok", "err") and (pending is None or it["source"] in pending):
+                    last[it["source"]] = (k, set(step.get("read_before_failure", {}).get(it["source"], [])))
+            table[k] = dict(last)
+        prev = step
+    return table
+
+
+def failed_run_dependencies(rec):
+    """oracle: the dependencies recorded for an item whose attempt failed contain every file the
+    attempt certainly read (so that a later change of one of them retries the item)"""
+    problems = []
+    prev = None
+    for k, step in enumerate(rec["steps"]):
+        if step["ev"] == "P" and step.get("state") and "read_before_failure" in step and prev and prev.get("state"):
+            pending = {it["source"] for it in prev["state"]["items"] if it["status"] == "not_started"}
+            for it in step["state"]["items"]:
+                want = set(step["read_before_failure"].get(it["source"], []))
+                if it["status"] == "err" and it["source"] in pending and not want <= set(it["deps"]):
+                    problems.append({"process_step": k, "source": it["source"], "recorded": it["deps"],
+                                     "read_before_the_failure": sorted(want), "error": it["error"][:200]})
+        prev = step
+    return problems
+
+
 def classify(rec, k, step, scope):
     """finding classes of the differences between the worker's tree and the fresh tree at step k,
     decided from the evidence in the two state dumps (never from the verdict alone)"""
@@ -224,7 +272,17 @@ def classify(rec, k, step, scope):
         elif w["status"] == "err" and f["status"] == "err" and p in got and p not in exp:
             classes.add("F1")      # the failing item kept the output of an earlier pass
         elif w["status"] == "err" and f["status"] == "ok":
-            classes.add("F2")      # failed earlier, would succeed now, was not retried
+            # failed earlier, would succeed now, was not retried.  This is the recorded class F2 only
+            # if nothing the failed attempt had read (nor its own source) was reported as changed
+            # since: otherwise the item had to be restarted and its staleness is a different defect
+            since, read = attempts(rec).get(k, {}).get(w["source"], (0, set()))
+            reported = set()
+            for s_ in rec["steps"][since + 1:k]:
+                reported.update(touched_paths(s_["ev"]))
+            if reported & (read | {w["source"]}):
+                classes.add("?")
+            else:
+                classes.add("F2")
         elif w["status"] == "ok" and had_dir_removal and "d" in scope:
             classes.add("F4")      # a dependency went away with its directory, item not restarted
         else:
@@ -282,6 +340,7 @@ def run(ctx):
     streams = [
         ("exhaustive, reduced alphabet", ["enum", "--len", "3" if quick else "4"]),
         ("exhaustive, full alphabet", ["enum", "--len", "2", "--alphabet", "full"]),
+        ("break / repair / touch every bundled file", ["breakfix"]),
         ("random", ["random", "--seed", str(ctx.seed), "--n", "200" if quick else "1500",
                     "--len", "12" if quick else "40"]),
     ]
@@ -328,6 +387,7 @@ def run(ctx):
     n_points = 0
     n_in_scope = 0
     class_counts = {}
+    n_failed_dep_checks = {"checked": 0, "bad": 0}
     samples = []
     for cid, rec in enumerate(records):
         stream = rec["stream"]
@@ -378,6 +438,12 @@ def run(ctx):
                 for c in classes:
                     class_counts[c] = class_counts.get(c, 0) + 1
                     ctx.violation(KNOWN_TEXT[c], replay, key=KNOWN_CLASSES[c])
+        for prob in failed_run_dependencies(rec)[:1]:
+            n_failed_dep_checks["bad"] += 1
+            ctx.violation("the dependencies recorded after a failed run miss files the attempt had read: a later "
+                          "change of such a file does not retry the item",
+                          dict(prob, history=rec["h"], replay=replay_cmd), key="failed-run-deps:" + rec["h"])
+        n_failed_dep_checks["checked"] += sum(1 for s_ in rec["steps"] if "read_before_failure" in s_)
         if rec["verdict"] == "panic":
             msg = rec["detail"]["message"]
             replay = {"history": rec["h"], "message": msg, "at": rec["detail"]["event"],
@@ -451,6 +517,8 @@ def run(ctx):
                process_points_inside_the_hypotheses=n_in_scope, known_class_hits=class_counts)
     ctx.stream("hypotheses about xform on real results (frame, deps exist, deps outside output)", n_x, n_groups, [],
                problems=len(x_problems))
+    ctx.stream("dependencies recorded after a failed bundle contain the files read before the failure",
+               n_failed_dep_checks["checked"], n_failed_dep_checks["checked"], [], problems=n_failed_dep_checks["bad"])
 
     if model_bad and not ctx.violations:
         h, d = model_bad[0]
